@@ -348,8 +348,50 @@ fn run(ctx: &mut Ctx) {
         torus_cover_family(ctx);
         ctx.add("cpu_us_torus_cover_family", t0.elapsed().as_micros() as i64);
     }
+    if ctx.nviolations() == 0 {
+        let t0 = std::time::Instant::now();
+        affine_family(ctx, &list);
+        ctx.add("cpu_us_affine_family", t0.elapsed().as_micros() as i64);
+    }
     if ctx.nviolations() == 0 && ctx.take() {
         recorded_torus_cover(ctx);
+    }
+}
+
+/// family (e): irregular numberings.  The nine systematic renumberings keep long runs of consecutive chamber
+/// numbers together; defect 21 (simplify losing a 3-torus) only showed under numberings that scatter them.  Every
+/// corpus cover and every cover of a corpus dual is run under the affine renumberings d -> a d + b (mod n), a
+/// coprime to n (the first K such a > 1 in steps that spread them over 1..n, b = 7 a + 3), default schedule:
+/// validity, H1, subgroup profile, reducedness and the same minimal-quotient class as for the input as given.
+fn affine_family(ctx: &mut Ctx, list: &[Input]) {
+    fn gcd(a: usize, b: usize) -> usize {
+        if b == 0 { a } else { gcd(b, a % b) }
+    }
+    let per = ctx.tier.pick(12usize, 400usize);
+    for inp in list.iter().filter(|i| i.corpus) {
+        let n = inp.s.n;
+        let coprime: Vec<usize> = (2..n).filter(|&a| gcd(a, n) == 1).collect();
+        if coprime.is_empty() {
+            continue;
+        }
+        let step = (coprime.len() / per).max(1);
+        let mut ref_key: Option<Option<RS>> = None;
+        for &a in coprime.iter().step_by(step).take(per) {
+            if !ctx.take() {
+                continue;
+            }
+            if ref_key.is_none() {
+                ref_key = Some(reference_key(inp));
+            }
+            let b = (7 * a + 3) % n;
+            let p: Vec<usize> = (0..n).map(|d| (a * d + b) % n).collect();
+            ctx.add("affine_units", 1);
+            let known = Input { name: inp.name.clone(), s: inp.s.clone(), known: Some((vec![0, 0, 0], vec![1, 7, 13])), ptc: true, rigid: true, corpus: true };
+            check_unit_bound(ctx, &known, &format!("affine {}d+{}", a, b), &p, ref_key.as_ref().unwrap(), Some(0));
+            if ctx.nviolations() > 0 {
+                return;
+            }
+        }
     }
 }
 
